@@ -211,6 +211,9 @@ class Task(Generic[T]):
         if "_" in name:
             opts["attr_name"] = name
             name = translate_underscores(name)
+            if not name:
+                err = "Parameter {!r} cannot be exposed as a CLI flag: its name consists of underscores only!"  # noqa
+                raise ValueError(err.format(original_name))
         names = [name]
         if self.auto_shortflags:
             # Must know what short names are available
